@@ -242,6 +242,22 @@ def check_replace(tree, what, bad):
                  and s[3] == ('CALL', ('VAR', 'getattr'), SELF, ITEM)]
         if not fills:
             bad('C16-replace', f'{what}: _replace does not take the fields that were not given from the original')
+        # exactly the fields that were not given: the fill is decided by membership in kw and nothing else
+        # (a given value - None, 0, '' included - is never replaced by the original's)
+        member = (('CMP', ('NotIn',), ITEM, KW), True), (('CMP', ('In',), ITEM, KW), False)
+        for lp in [s for s in p.steps if s[0] == 'LOOP']:
+            for bp in lp[2]:
+                fill = [s for s in bp.steps if s[0] == 'E' and s[1] == 'substore' and s[2] == ('SUB', KW, ITEM)]
+                absent = [t for t in bp.tests() if (t[1], t[2]) in member]
+                present = [t for t in bp.tests() if (t[1], not t[2]) in member]
+                others = [t for t in bp.tests() if t not in absent and t not in present]
+                if fill and (not absent or others):
+                    bad('C16-replace', f'{what}: _replace takes a field from the original on a path decided by '
+                                       f'[{"; ".join(("" if t[2] else "not ") + P.tfmt(t[1]) for t in bp.tests())}], '
+                                       f'not by `field not in kw` alone: a value that was given (None, 0, \'\' '
+                                       f'included) must be kept - transform() hands over replacement children this way')
+                if absent and not fill and bp.end[0] == 'continue':
+                    bad('C16-replace', f'{what}: a field that was not given is not taken from the original')
 
 
 def check_getattr_safety(tree, what, bad):
